@@ -777,7 +777,7 @@ pub fn check(ctx: &Ctx) {
     let quick = ctx.tier == Tier::Quick;
     // S2K
     let mut sc = Vec::new();
-    let counts: Vec<u8> = if quick { vec![0, 1, 15, 16, 96, 97, 224, 255] } else { (0..=255).collect() };
+    let counts: Vec<u8> = if quick { (0..=255u8).filter(|c| c % 8 == 0 || c % 16 == 15 || matches!(c, 1 | 97 | 255)).collect() } else { (0..=255).collect() };
     let pwlens: Vec<usize> = vec![0, 1, 7, 8, 9, 55, 56, 57, 63, 64, 65, 119, 200, 1016, 1017, 1018, 1100];
     for hash in HASH_IDS {
         for size in [16usize, 24, 32, 40, 65] {
@@ -800,7 +800,7 @@ pub fn check(ctx: &Ctx) {
     }
     for t in 1..=3u8 {
         for p in [1u8, 2, 4] {
-            for m_enc in 3..=if quick { 7u8 } else { 10 } {
+            for m_enc in 3..=if quick { 9u8 } else { 12 } {
                 for size in [16usize, 32, 40] {
                     for pwlen in [0usize, 8, 200] {
                         sc.push(S2kCase { typ: 4, hash: 0, count: 0, t, p, m_enc, size, pwlen });
